@@ -240,9 +240,16 @@ func (w *World) verifyFunc(p pkgT, cs *ContractSet, ct *Contract) (res *UnitResu
 		}
 		x.call(final, d.Call)
 	}
+	nres := sig.Results().Len()
+	for i := 0; i < nres && i < len(final.ret); i++ {
+		rv := final.ret[i]
+		if i < len(x.results) {
+			rv = final.vars[x.results[i]]
+		}
+		final.ghost[fmt.Sprintf("r%d", i)] = rv
+	}
 	x.runGhost(final, ct.Exit, "exit", body)
 	env := x.specEnv(final)
-	nres := sig.Results().Len()
 	for i := 0; i < nres && i < len(final.ret); i++ {
 		rv := final.ret[i]
 		if i < len(x.results) {
